@@ -78,7 +78,27 @@ def build_driver(race=False):
     return out
 
 
-def run_driver(binary, args, env=None, timeout=3600, cwd=None):
+class DriverCrash(Exception):
+    """The driver process died; .stderr holds its last output (e.g. a Go panic of the code under test)."""
+
+    def __init__(self, rc, stderr):
+        Exception.__init__(self, "driver exited with %d" % rc)
+        self.rc, self.stderr = rc, stderr
+
+
+def repo_panic(stderr, pkg):
+    """If stderr is a Go panic whose stack runs through /repo/<pkg>/, return a short signature."""
+    if "panic:" not in stderr and "fatal error:" not in stderr:
+        return None
+    frames = [ln.strip() for ln in stderr.splitlines() if ln.strip().startswith("/repo/")]
+    if not any(("/repo/%s/" % pkg) in f for f in frames):
+        return None
+    first = next(ln for ln in stderr.splitlines() if ln.startswith("panic:") or ln.startswith("fatal error:"))
+    where = next(f for f in frames if ("/repo/%s/" % pkg) in f).split(" +")[0]
+    return "%s at %s" % (first.strip()[:120], re.sub(r":\d+$", "", where.replace("/repo/", "")))
+
+
+def run_driver(binary, args, env=None, timeout=3600, cwd=None, crash_ok=False):
     e = dict(os.environ)
     e["VERIF_SEED"] = str(seed())
     if env:
@@ -90,6 +110,8 @@ def run_driver(binary, args, env=None, timeout=3600, cwd=None):
     except subprocess.TimeoutExpired:
         raise Infra("driver timed out: %s" % " ".join(args))
     if p.returncode != 0:
+        if crash_ok:
+            raise DriverCrash(p.returncode, p.stderr[-20000:])
         raise Infra("driver failed (%d): %s\n%s" % (p.returncode, " ".join(args), (p.stdout + p.stderr)[-4000:]))
     for line in p.stdout.splitlines():
         if line.startswith("DRV "):
@@ -223,6 +245,12 @@ def _validate_one(spec, cfg, trace_file, scratch, timeout, heap, deque, extra_en
     if extra_env:
         env.update(extra_env)
     rc, out = tlc(spec, cfg, scratch, workers=1, timeout=timeout, env=env, heap=heap, gcthreads=2, deque=deque)
+    if "Invariant NotDone is violated" in out:
+        # early-exit acceptance of the history specifications (see NotDone)
+        with open(trace_file, "rb") as f:
+            total = sum(1 for _ in f)
+        gen, dist = tlc_counts(out)
+        return dict(file=trace_file, hwm=total, total=total, out=out, generated=gen, distinct=dist, inv_violated=False, other_error=None)
     m = None
     for m in _HWM.finditer(out):
         pass
@@ -256,14 +284,14 @@ class Rejection(object):
 
 
 def validate_traces(spec, cfg, files, scratch, is_boundary, timeout=900, heap="3g", deque=False, parallel=None,
-                    max_rejections=3, extra_env=None):
+                    max_rejections=3, extra_env=None, scenario_timeout=None):
     """Validate every trace file with TLC (one process per file, in parallel).
     A rejected line ends its scenario; validation resumes at the next scenario
     boundary (is_boundary(event_dict) -> bool) so the rest is still checked.
     Returns (stats, rejections)."""
     parallel = parallel or max(1, min(NCPU, len(files)))
     rejections = []
-    stats = dict(events=0, files=len(files), tlc_runs=0, generated=0, distinct=0)
+    stats = dict(events=0, files=len(files), tlc_runs=0, generated=0, distinct=0, undecided=0)
 
     def work(item):
         idx, path = item
@@ -276,7 +304,36 @@ def validate_traces(spec, cfg, files, scratch, is_boundary, timeout=900, heap="3
         while True:
             if os.path.getsize(cur) == 0:
                 break
-            r = _validate_one(spec, cfg, cur, sub, timeout, heap, deque, extra_env)
+            try:
+                r = _validate_one(spec, cfg, cur, sub, timeout, heap, deque, extra_env)
+            except Infra as ex:
+                if "timed out" not in str(ex) or not scenario_timeout:
+                    raise
+                # Inference got expensive for this file: validate its scenarios one by one; a scenario that
+                # still exceeds its own budget is undecided (counted, never a verdict).
+                lines = read_lines(cur)
+                starts = [i for i, ln in enumerate(lines) if is_boundary(json.loads(ln))] or [0]
+                if starts[0] != 0:
+                    starts = [0] + starts
+                for a, b in zip(starts, starts[1:] + [len(lines)]):
+                    one = os.path.join(sub, "one.ndjson")
+                    with open(one, "wb") as f:
+                        f.write(b"\n".join(lines[a:b]) + b"\n")
+                    try:
+                        r1 = _validate_one(spec, cfg, one, sub, scenario_timeout, heap, deque, extra_env)
+                    except Infra as ex1:
+                        if "timed out" in str(ex1):
+                            local["undecided"] = local.get("undecided", 0) + 1
+                            continue
+                        raise
+                    local["tlc_runs"] += 1
+                    if r1["hwm"] == r1["total"]:
+                        local["events"] += r1["total"]
+                    else:
+                        scen = [json.loads(x) for x in lines[a:a + r1["hwm"] + 1]]
+                        out_rej.append(Rejection(path, offset + a + r1["hwm"] + 1, scen, scen[-1], "event not allowed by the specification"))
+                        local["events"] += r1["hwm"]
+                break
             local["tlc_runs"] += 1
             local["generated"] += r["generated"]
             local["distinct"] += r["distinct"]
@@ -312,8 +369,8 @@ def validate_traces(spec, cfg, files, scratch, is_boundary, timeout=900, heap="3
 
     with ThreadPoolExecutor(max_workers=parallel) as ex:
         for local, rej in ex.map(work, list(enumerate(files))):
-            for k in ("events", "tlc_runs", "generated", "distinct"):
-                stats[k] += local[k]
+            for k in ("events", "tlc_runs", "generated", "distinct", "undecided"):
+                stats[k] += local.get(k, 0)
             rejections.extend(rej)
     return stats, rejections
 
